@@ -109,6 +109,25 @@ Fixpoint stage_seq_prop (w : which_stage) (m : intervals) (x : sctx) (mk : optio
       ok (with_now x now) tzt mk && stage_seq_prop w m x (snd (stage_step w m tzt (with_now x now) mk)) r ok
   end.
 
+(* Error classes are recognised from the message text (the stages use inline errors.New, no sentinels). A text
+   the harness does not recognise is recorded as "unclassified": an error whose reason is unknown. It agrees
+   with ANY error of the model and never with success; recognised classes are compared exactly. *)
+Definition err_compat (model obs : option string) : bool :=
+  match obs with
+  | Some o => if String.eqb o "unclassified" then match model with Some _ => true | None => false end
+              else beq model obs
+  | None => beq model obs
+  end.
+Definition out_compat (model obs : bool * option string * (list string * bool)) : bool :=
+  let '(p, e, mk) := model in let '(p', e', mk') := obs in
+  beq p p' && err_compat e e' && beq mk mk'.
+Fixpoint outs_compat (ms os : list (bool * option string * (list string * bool))) : bool :=
+  match ms, os with
+  | [], [] => true
+  | a :: r, b :: r' => out_compat a b && outs_compat r r'
+  | _, _ => false
+  end.
+
 Inductive shown :=
 | ShInsts (l : list (civil * Z * bool))
 | ShZ (z : Z) | ShR (o : option rng) | ShM (o : res (bool * list string))
@@ -141,9 +160,9 @@ Definition check_case (c : case) : bool :=
   | CParseTimeRange st en out => beq (parse_time_range st en) out
   | CParseRange k s out => beq (parse_range k s) out
   | CMutes m tzt names now out => beq (mutes (tz_table tzt) m names now) out
-  | CStage w m tzt x mk0 pass err by_ ism => beq (stage_model w m tzt x mk0) (pass, err, (by_, ism))
+  | CStage w m tzt x mk0 pass err by_ ism => out_compat (stage_model w m tzt x mk0) (pass, err, (by_, ism))
   | CMutesSeq m qs => forallb (fun '(names, now, tzt, out) => beq (mutes (tz_table tzt) m names now) out) qs
-  | CStageSeq w m x mk0 steps => beq (stage_seq_model w m x mk0 (map fst steps)) (map snd steps)
+  | CStageSeq w m x mk0 steps => outs_compat (stage_seq_model w m x mk0 (map fst steps)) (map snd steps)
   | CCfg d ru us acc => beq (cfg_names_ok d ru us) acc
   | CSys m mute active fl =>
       beq (sys_model m mute active (fun _ => None) fl) (map (fun f => (f_notified f, None, (f_by f, f_muted f))) fl)
